@@ -202,6 +202,12 @@ def gen_queries(rng: Rng, world: dict) -> list[dict]:
         flag = qs[-1]["ignore_files"]
         for q in qs[-len(chosen):]:
             q["ignore_files"] = flag
+        # read fault: ONE ignore file that applies to this query cannot be read (EACCES / EIO) in one of
+        # the executions. The error may surface; the file's patterns must not be silently dropped.
+        appl = [d for d in world["ignore"] if flag and (d == target or d.startswith(target + "/") or target.startswith(d + "/") or d == cwd)]
+        if appl and rng.chance(0.15):
+            d = rng.choice(sorted(appl))
+            qs[-1]["unreadable"] = [d + "/" + world["ignore"][d]["how"], rng.choice(["EACCES", "EIO"])]
     return qs
 
 
@@ -325,6 +331,33 @@ def run_one(ctx: Any, seed: int, tier: str, replay: Optional[dict] = None) -> di
                 finally:
                     fresh.close()
                 results["fresh"] = r2
+                # (3) read fault: one applicable ignore file is unreadable, in another fresh node
+                if q.get("unreadable"):
+                    fpath, errno_ = q["unreadable"]
+                    fplan = [{"cls": "open_r", "path": fpath, "nth": 0, "kind": "err", "errno": errno_}]
+                    fn3 = z.node({"name": "u%d" % qi, "root": root, "cwd": q["cwd"], "seed": seed + 500 + qi, "knobs": {"listing": "sorted", "journal_reads": False}})
+                    try:
+                        r3 = fn3.call("discover", path=path, ignore_files=q["ignore_files"], exts=q["exts"], via=q["via"], plan=fplan)
+                        fired3 = dict(fn3.fired)
+                    finally:
+                        fn3.close()
+                    evaluations += 1
+                    if fired3.get("err"):
+                        faults["ignore_file_unreadable"] += 1
+                        if "exception" in r3:
+                            probes["unreadable_ignore_file_error_surfaced"] += 1
+                        else:
+                            got3 = sorted(os.path.relpath(os.path.normpath(os.path.join(root, q["cwd"], p_)), root) for p_ in r3["paths"])
+                            extra3 = sorted(set(got3) - set(want))
+                            if extra3:
+                                violations.append({
+                                    "oracle": "unreadable-ignore-file",
+                                    "signature": "C25:unreadable-ignore-file-silently-dropped",
+                                    "message": "ignore file %s could not be read (%s) and discovery went on without it: %s selected although its patterns exclude them (query %s)" % (
+                                        fpath, errno_, extra3, {k: q[k] for k in ("cwd", "target", "spelling", "via")}),
+                                    "_q": qi, "_who": "unreadable", "_extra": extra3,
+                                })
+                    log.append([qi, "unreadable", fpath, sorted(r3.get("paths", [])) if "exception" not in r3 else "EXC"])
                 for who, r in results.items():
                     evaluations += 1
                     if "exception" in r:
